@@ -47,9 +47,26 @@ def git_rev(path: str) -> str:
 # one run
 # --------------------------------------------------------------------------------------
 _CACHED = None
+_PRISTINE_DEFS = None
 
 
 def reset_process_caches():
+    _reset_lru()
+    # the table of registered message definitions as it is right after import
+    global _PRISTINE_DEFS
+    try:
+        import pyrtma.message as PM
+        if _PRISTINE_DEFS is None:
+            if PM._msg_defs:
+                _PRISTINE_DEFS = dict(PM._msg_defs)
+        elif PM._msg_defs != _PRISTINE_DEFS:
+            PM._msg_defs.clear()
+            PM._msg_defs.update(_PRISTINE_DEFS)
+    except Exception:
+        pass
+
+
+def _reset_lru():
     """Every run must start from the state a fresh process would have: memoised functions inside
     pyrtma (functools.lru_cache wrappers, found by their cache_clear attribute) are emptied."""
     global _CACHED
